@@ -103,7 +103,7 @@ def MfHead.ctx : MfHead → Str
   | .ver _ _ _ => "version_multiword".toList
   | .num _ _ => "number_identifier".toList
 
-/-- a multi-word value with any of the six kinds of head. -/
+/-- a multi-word value with any of the seven kinds of head. -/
 structure MfWords where
   head : MfHead
   tail : List (Nat × Str)
